@@ -39,6 +39,7 @@ HEADERS = """
 #include <unifex/upon_error.hpp>
 #include <unifex/via.hpp>
 #include <unifex/when_all.hpp>
+#include <unifex/when_any.hpp>
 #include <unifex/with_query_value.hpp>
 #include <unifex/filter_stream.hpp>
 #include <unifex/for_each.hpp>
@@ -55,7 +56,7 @@ UNARY = [("then", 5), ("upon_error", 2), ("upon_done", 2), ("let_value", 5), ("l
          ("let_done", 3), ("finally", 4), ("via", 3), ("on", 3), ("with_query", 2),
          ("unstoppable", 2), ("demat", 2), ("allocate", 1), ("lvw_stop_source", 3),
          ("lvw_stop_token", 2), ("let_value_with", 1), ("defer", 1), ("retry_when", 2), ("any_sender", 2)]
-NARY = [("sequence", 4), ("when_all", 6), ("stop_when", 5)]
+NARY = [("sequence", 4), ("when_all", 6), ("stop_when", 5), ("when_any", 4)]
 VAL_ONLY = [("materialize_c", 2), ("dao_c", 2), ("into_variant_c", 1)]
 VOID_ONLY = [("repeat_effect_until", 2)]
 
@@ -220,6 +221,9 @@ class Gen:
             kids = [E(self.rng.choice(["val", "void"]), d) for _ in range(n)]
             w = {"op": "when_all", "kids": kids}
             return {"op": "then", "kid": w, "fn": self.fn_id(), "ret": vt}
+        if k == "when_any":
+            n = self.rng.choice([2, 2, 3])
+            return {"op": "when_any", "kids": [E(vt, d) for _ in range(n)]}
         if k == "stop_when":
             # debug builds wrap receivers in try/catch->set_error(exception_ptr), which
             # stop_when's result variant cannot hold when the source declares no errors
@@ -247,7 +251,7 @@ def may_have_empty_errors(s):
     """conservative: False only when the sender certainly declares exception_ptr errors"""
     op = s["op"]
     if op in ("leaf", "then", "upon_error", "upon_done", "let_value", "let_error", "let_done",
-              "finally", "via", "when_all", "just_from", "defer", "retry_when", "just_error", "any_sender"):
+              "finally", "via", "when_all", "when_any", "just_from", "defer", "retry_when", "just_error", "any_sender"):
         return False
     if op in ("unstoppable", "with_query", "allocate", "lvw_stop_source", "lvw_stop_token",
               "let_value_with", "stop_when"):
@@ -312,6 +316,8 @@ def cpp(s):
             s["gfn"], s["fn"], cpp(s["body"]))
     if op == "when_all":
         return U + "when_all(%s)" % ", ".join(cpp(k) for k in s["kids"])
+    if op == "when_any":
+        return U + "when_any(%s)" % ", ".join(cpp(k) for k in s["kids"])
     if op == "stop_when":
         return U + "stop_when(%s, %s)" % (cpp(s["kid"]), cpp(s["trigger"]))
     if op == "retry_when":
